@@ -51,6 +51,17 @@ type Choices struct {
 	// Trace of the first labels, for evidence samples / debugging.
 	Trace    []string
 	TraceMax int
+	salt     map[string]uint64
+}
+
+// Salt makes stream name draw from a different PRNG sequence (random mode): used
+// to vary one dimension (e.g. the transport's segmentation) with everything else
+// of the run unchanged.
+func (c *Choices) Salt(name string, v uint64) {
+	if c.salt == nil {
+		c.salt = map[string]uint64{}
+	}
+	c.salt[name] = v
 }
 
 type stream struct {
@@ -75,7 +86,7 @@ func NewReplay(seed uint64, vecs map[string][]uint32) *Choices {
 func (c *Choices) st(name string) *stream {
 	s := c.streams[name]
 	if s == nil {
-		s = &stream{rng: splitmix{s: Mix(c.Seed, hashStr(name))}}
+		s = &stream{rng: splitmix{s: Mix(c.Seed, hashStr(name)^(c.salt[name]*0x9e3779b97f4a7c15))}}
 		c.streams[name] = s
 	}
 	return s
